@@ -3319,8 +3319,35 @@ def uart_reset_spec() -> ModSpec:
     )
 
 
+def ezsp_rx_spec() -> ModSpec:
+    """EZSP.frame_received (bellows/ezsp/__init__.py): the guard around the version handler's `__call__` (generated: BV/Gen/SrcProto.lean)"""
+    def call_protocol(fn, node, env, L):
+        if len(node.args) != 1 or node.keywords:
+            raise Unsupported("self._protocol(...) arguments")
+        a, at = fn.ex(node.args[0], env, L)
+        if at != BYTES:
+            raise Unsupported("self._protocol of " + str(at))
+        L.append(f"BV.Src.Proto.handler_call {paren(a)}")
+        return "()", UNIT
+
+    st = StateSpec(
+        pyclass="EZSP", lean="Proto",
+        fields={"_protocol": ("protocol", opt(("lean", "Unit")))},
+        calls={"self._protocol": call_protocol},
+    )
+    return ModSpec(
+        module="bellows.ezsp",
+        ns="BV.Src.EzspRx",
+        imports=["BV.Gen.SrcProto"],
+        opens=["BV.Py"],
+        unions={},
+        fns=[FnSpec("EZSP.frame_received", params={"data": BYTES}, ret=UNIT, lean_name="frame_received")],
+        state=st,
+    )
+
+
 MODULES = {"Ash": ash_spec, "Uart": uart_spec, "Mcast": multicast_spec, "Wd": watchdog_spec,
-           "HdrV4": hdr_v4_spec, "HdrV5": hdr_v5_spec, "HdrV8": hdr_v8_spec, "Proto": protocol_spec, "Cmd": command_spec, "UartReset": uart_reset_spec}
+           "HdrV4": hdr_v4_spec, "HdrV5": hdr_v5_spec, "HdrV8": hdr_v8_spec, "Proto": protocol_spec, "EzspRx": ezsp_rx_spec, "Cmd": command_spec, "UartReset": uart_reset_spec}
 
 
 def translate_module(spec: ModSpec):
